@@ -76,7 +76,9 @@ def make_specs():
     # stop() of the observer = EventDispatcher.stop -> BaseThread.stop -> on_thread_stop: every stop() call performs the
     # removal itself before it returns (a second stop() must not return while the first is still waiting for the lock)
     from specs import c06
-    for sp in (c06.ThreadStop(), c06.DispatcherStop()):
+    # "the emitter of an unscheduled watch has stopped producing events": an emitter thread looks at its stop flag before
+    # every round (so one that was stopped before it started produces nothing)
+    for sp in (c06.ThreadStop(), c06.DispatcherStop(), c06.RunLoop("EventEmitter")):
         sp.prop = PROP
         out.append(sp)
     return out
